@@ -482,3 +482,70 @@ fn k20_file_definitions() {
     core::mem::forget(c);
     core::mem::forget(s);
 }
+
+// Files with fewer definitions: the number of definitions is concrete per harness (a vector whose LENGTH is symbolic costs
+// > 12 GB here), the presence of the module is symbolic.
+macro_rules! file_with_n_definitions {
+    ($n:expr) => {{
+        let has_module: bool = kani::any();
+        let m = OwnedPtr::new(Module { identifier: id(), attributes: Vec::new(), span: sp() });
+        let c = OwnedPtr::new(CustomType { identifier: id(), scope: Scope::default(), attributes: Vec::new(), comment: None, span: sp() });
+        let mut contents = Vec::with_capacity(1);
+        if $n >= 1 {
+            contents.push(Definition::CustomType(c.downgrade()));
+        }
+        let file = SliceFile {
+            filename: String::new(),
+            relative_path: String::new(),
+            raw_text: String::new(),
+            module: if has_module { Some(m.downgrade()) } else { None },
+            attributes: Vec::new(),
+            contents,
+            is_source: true,
+        };
+        let mut r = Rec::new();
+        file.visit_with(&mut r);
+        kani::cover!(has_module, "file with a module reachable");
+        kani::cover!(!has_module, "module-less file reachable");
+        let k = has_module as usize;
+        assert!(r.n == 1 + k + $n, "every element is presented exactly once, nothing else");
+        assert!(r.is(0, FILE, &file), "the file comes first");
+        if has_module {
+            assert!(r.is(1, MODULE, m.borrow()), "then its module, whether or not definitions follow");
+        }
+        if $n >= 1 {
+            assert!(r.is(1 + k, CUSTOM, c.borrow()), "then the definition");
+        }
+        core::mem::forget(file);
+        core::mem::forget(m);
+        core::mem::forget(c);
+    }};
+}
+
+//@ prop: C20
+//@ family: K20-catalogue
+//@ tier: quick
+//@ functions: SliceFile::visit_with, Module::visit_with
+//@ inst: recording Visitor; hand-built SliceFile WITHOUT definitions, with or without a module: the file that declares only its module, and the empty file
+//@ inputs: module present or not
+//@ oracle: recorded == [file, module?]: the module is presented although no definition follows; an empty file presents only itself
+//@ bound: unwind 4
+#[kani::proof]
+#[kani::unwind(4)]
+fn k20_file_no_definitions() {
+    file_with_n_definitions!(0usize)
+}
+
+//@ prop: C20
+//@ family: K20-catalogue
+//@ tier: quick
+//@ functions: SliceFile::visit_with, Module::visit_with, CustomType::visit_with, Definition dispatch
+//@ inst: recording Visitor; hand-built SliceFile with exactly one definition (a custom type), with or without a module
+//@ inputs: module present or not
+//@ oracle: recorded == [file, module?, custom type]; nothing else
+//@ bound: unwind 4
+#[kani::proof]
+#[kani::unwind(4)]
+fn k20_file_one_definition() {
+    file_with_n_definitions!(1usize)
+}
